@@ -103,7 +103,8 @@ INDEX_SENSITIVE = {"whole_type", "i8_many_before_later", "n255_holes", "n256_gap
                    "gapless_to_max", "touch_min_max", "first_run_at_min", "neg_later_runs", "neg_many_runs",
                    "run_at_min_then_neg", "gapless_neg", "gapless_span0", "last_run_at_max", "narrow_limits_holes",
                    "many_runs_uneven", "many_runs_uneven_neg", "across_narrow_umax", "many_runs_40", "span_alias",
-                   "span_alias_neg", "even_step_wide", "span_alias16", "gapless_pos", "two_runs", "two_runs_off", "gap1"}
+                   "span_alias_neg", "even_step_wide", "span_alias16", "gapless_pos", "two_runs", "two_runs_off", "gap1",
+                   "bitflags_zero", "bitflags_zero6", "bitflags_full", "bitflags_signbit"}
 
 
 def catalogue_cases(ids: IdGen, tier: str, seed: int = 1):
